@@ -466,3 +466,30 @@ META["C19"] = dict(
     level_note="Trusts the generator's map and the extension table; sampled trees.",
     design_ref="DESIGN.md §5 C19",
 )
+
+PLANS["C18"] = dict(
+    level="exploration",
+    exhaustive={"quick": True, "thorough": True},
+    rule=("one child process per scenario, each running the real howl on a multi-thread tokio runtime and receiving a real SIGINT handled by the real ctrlc thread. (a) interleavings: the five "
+          "state-sharing operations (signal thread: store flag s1, take waker s2, wake s3; poll: [poll accept + read flag] p12, publish waker p3) in all C(5,2)=10 orders, each with the signal "
+          "arriving at the 1st poll, after one accepted connection and after two (30 schedules, enumerated completely); turns are forced through the H4 scheduling points, the realised order is "
+          "read back from the log; (b) in-flight sessions: 0-6 connections whose handlers block on gates opened in a scripted order, idle keep-alive connections, connections arriving after the "
+          "interrupt, a handler that panics. Oracle over the event log (one sequence counter): progress in logical steps (handler finished and (poll returned Ready(None) or a wake of the task "
+          "since its poll began), else lost wake-up), howl returns, and it returns after every handler_end of a session accepted before; nothing is served after the interrupt. "
+          "distinct_nontrivial = distinct realised operation orders + distinct session completion orders."),
+    quick=[R("c18", "rel", 18, shards=16)],
+    thorough=[R("c18", "rel", 400, shards=16, flags={"repeats": 20}), R("c18", "tsan", 40, shards=16, flags={"repeats": 2}), R("c18", "dbg", 40, shards=16)],
+    floors={"quick": {"evaluations": 40, "distinct": 12, "interleaving_runs": 30, "interleavings_returned": 30, "session_scenarios_ok": 12},
+            "thorough": {"evaluations": 1_000, "interleaving_runs": 600}},
+    wall_limit={"quick": 600, "thorough": 3600},
+    assumptions=["'always eventually' is restated as bounded progress: no lost wake-up state + return observed within 8 s after the race (10 s after the last session); a child that exceeds 40 s is inconclusive",
+                 "polling accept and reading the flag are one scheduling step (no statement boundary, no shared state between them)", "rt_tokio only"],
+)
+META["C18"] = dict(
+    engine="vh c18 (+ vh c18child per scenario)",
+    technique="runtime monitoring: forced-interleaving execution of the real signal handler / accept-loop poll through scheduling-point hooks with a real SIGINT, offline checker over the recorded event log (ordering, lost-wake-up predicate, bounded progress); TSan build in thorough",
+    level_text=("All 30 (order, poll position) schedules are executed in the real code and the realised order is read back from the log; the lost-wake-up state is decided logically from counted "
+                "polls and wakes of the accept-loop task, not by waiting. Session scenarios check return-after-all-sessions on the same log."),
+    level_note="Schedules inside each atomic operation are not explored; only rt_tokio; session scenarios are sampled and partly time-paced (verdicts use sequence numbers).",
+    design_ref="DESIGN.md §5 C18",
+)
